@@ -41,6 +41,24 @@ impl SourceMapper {
     pub closed spec fn v_last(&self) -> usize { self.source_last }
     pub closed spec fn v_next(&self) -> usize { self.output_next }
     pub closed spec fn v_map(&self) -> Map<usize, usize> { self.source_map@ }
+//@fn src/lib/util/preprocessor_util.rs lock_source
+//@contract
+        requires old(self).v_lock() < u16::MAX,
+        ensures final(self).v_lock() == old(self).v_lock() + 1, final(self).v_last() == old(self).v_last(),
+            final(self).v_next() == old(self).v_next(), final(self).v_map() == old(self).v_map(),
+//@end
+//@fn src/lib/util/preprocessor_util.rs unlock_source
+//@contract
+        requires old(self).v_lock() > 0,
+        ensures final(self).v_lock() == old(self).v_lock() - 1, final(self).v_last() == old(self).v_last(),
+            final(self).v_next() == old(self).v_next(), final(self).v_map() == old(self).v_map(),
+//@end
+//@fn src/lib/util/preprocessor_util.rs set_source
+//@contract
+        ensures final(self).v_last() == (if old(self).v_lock() == 0 { source_char } else { old(self).v_last() }),
+            final(self).v_lock() == old(self).v_lock(), final(self).v_next() == old(self).v_next(),
+            final(self).v_map() == old(self).v_map(),
+//@end
 //@fn src/lib/util/preprocessor_util.rs add_entry
 //@contract
         requires old(self).v_next() < usize::MAX,
@@ -402,6 +420,47 @@ pub open spec fn asm_inv(c: &Context, o: &Output) -> bool {
         final(out).code@ == old(out).code@, final(context).label_map@ == old(context).label_map@,
         asm_inv(old(context), old(out)) ==> asm_inv(final(context), final(out)), //# C08,C16 asm.output_invariant_preserved
         toks(final(out).data@.last()@) == @TOKS(L:set N:n), //# C12,C11 asm.emitted_line_is_the_directive_in_the_loaders_syntax
+//@end
+
+// ---- macro use (C16: the position of the OUTERMOST use is frozen around the expansion and released afterwards; C13/C19: a use of a
+// macro that is being expanded is refused, and the set of macros under expansion is restored whatever the expansion ends with).
+// The nested parse of the expansion is the recursive call of this very grammar: its ASSUMED contract is the property itself one
+// level down (balanced freezing, restored expansion set, tables only grow) -- induction on the nesting depth, which the recursion
+// check bounds by the number of macros.
+pub struct PreprocessorParser;
+impl PreprocessorParser {
+    #[verifier::external_body]
+    pub fn new() -> (r: PreprocessorParser) { PreprocessorParser }
+    #[verifier::external_body]
+    pub fn parse(&self, context: &mut Context, out: &mut Output, input: &String) -> (r: Result<(), ParseError>)
+        ensures
+            final(context).mapper.v_lock() == old(context).mapper.v_lock(),
+            old(context).mapper.v_lock() > 0 ==> final(context).mapper.v_last() == old(context).mapper.v_last(),
+            final(context).macro_nesting_counter@ == old(context).macro_nesting_counter@,
+            final(context).macro_map@ == old(context).macro_map@,
+            final(out).code@.len() >= old(out).code@.len(),
+            final(out).code@.subrange(0, old(out).code@.len() as int) == old(out).code@,
+    { unimplemented!() }
+}
+
+//@action src/lib/preprocessor/preprocessor.rs macro_use = r#"[_a-zA-Z][_a-zA-Z0-9]*"#, "(", CommaSepList<general_string>, ")" as as_macro_use
+//@contract
+//@strslice
+    requires vstd::std_specs::hash::obeys_key_model::<String>(), l.is_ascii(),
+        old(context).mapper.v_lock() < u16::MAX,
+        start + l@.len() <= end,          // positions of the parse: the name starts at `start`, the use ends at `end`
+    ensures
+        // an unknown macro and a use of a macro that is being expanded are refused, and nothing is emitted
+        !has_key(old(context).macro_map@, l@) ==> r.is_err() && final(out).code@ == old(out).code@, //# C14 macro.unknown_macro_is_refused
+        has_key(old(context).macro_map@, l@) && has_elem(old(context).macro_nesting_counter@, l@)
+            ==> r.is_err() && final(out).code@ == old(out).code@, //# C14 macro.recursive_use_is_refused
+        // the source position is frozen at this use only if no enclosing use froze it already, and released again
+        final(context).mapper.v_lock() == old(context).mapper.v_lock(), //# C16 macro.freeze_and_release_are_balanced
+        old(context).mapper.v_lock() > 0 ==> final(context).mapper.v_last() == old(context).mapper.v_last(), //# C16 macro.an_enclosing_use_keeps_its_position
+        // the set of macros under expansion is restored whatever the expansion ended with
+        final(context).macro_nesting_counter@ == old(context).macro_nesting_counter@, //# C19 macro.expansion_set_is_restored
+        final(context).macro_map@ == old(context).macro_map@,
+        final(out).code@.len() >= old(out).code@.len(), final(out).code@.subrange(0, old(out).code@.len() as int) == old(out).code@,
 //@end
 
 // print mem <start> : <length>  -- refused when it would run past the end of memory
